@@ -87,6 +87,7 @@ type builtSCT struct {
 	ser    []byte // reference serialization (SerializedSCT content)
 	lib    *ct.SignedCertificateTimestamp
 	wantOK bool
+	ver    byte // version octet of the serialization (0 = v1)
 }
 
 // signedEntries are the candidate entries an SCT may have been signed over.
@@ -101,7 +102,7 @@ func (c *checker) buildSCT(sp sctSpec, ts uint64, entries signedEntries) *builtS
 	signKey, signTS, signExt := b.key, ts, b.ext
 	entry, ok := entries[sp.kind]
 	switch sp.kind {
-	case "ok", "not-embedded":
+	case "ok", "not-embedded", "version-1", "version-255":
 		entry = entries["ok"]
 	case "timestamp+1":
 		entry, signTS = entries["ok"], ts+1
@@ -127,6 +128,18 @@ func (c *checker) buildSCT(sp sctSpec, ts uint64, entries signedEntries) *builtS
 	b.lib = &ct.SignedCertificateTimestamp{SCTVersion: ct.V1, LogID: ct.LogID{KeyID: b.key.KeyHash()}, Timestamp: ts,
 		Extensions: ct.CTExtensions(b.ext),
 		Signature:  ct.DigitallySigned{Algorithm: tls.SignatureAndHashAlgorithm{Hash: tls.SHA256, Signature: tls.SignatureAlgorithm(sigAlg)}, Signature: sig}}
+	// an element whose version octet is not v1 (a later protocol version, laid out like v1 here): it is an element of the
+	// list like any other - the list read back has it, in its place - and it verifies as nothing
+	switch sp.kind {
+	case "version-1":
+		b.ver = 1
+	case "version-255":
+		b.ver = 255
+	}
+	if b.ver != 0 {
+		b.ser[0] = b.ver
+		b.lib.SCTVersion = ct.Version(b.ver)
+	}
 	return b
 }
 
@@ -521,7 +534,7 @@ func (c *checker) runCase(k *caseCtx) {
 		}
 		for i, b := range embSCTs {
 			p := ps[i]
-			if p == nil || p.SCTVersion != ct.V1 || p.LogID.KeyID != b.key.KeyHash() || p.Timestamp != b.ts || !bytes.Equal(p.Extensions, b.ext) ||
+			if p == nil || p.SCTVersion != ct.Version(b.ver) || p.LogID.KeyID != b.key.KeyHash() || p.Timestamp != b.ts || !bytes.Equal(p.Extensions, b.ext) ||
 				p.Signature.Algorithm != b.lib.Signature.Algorithm || !bytes.Equal(p.Signature.Signature, b.lib.Signature.Signature) {
 				k.violCtx("", "sctlist-readback "+name+" element", fmt.Sprintf("SCT %d (%s) read back as %+v", i, b.spec, p))
 				break
@@ -896,6 +909,8 @@ func wrongSets() [][]sctSpec {
 		{{kind: "timestamp+1"}, {kind: "other-log-key"}, {kind: "ext-differs", ext: 1}, {kind: "ok", ext: 1}, {kind: "not-embedded"}},
 		{{kind: "ok", rsa: true}, {kind: "poisoned-tbs", rsa: true}, {kind: "ikh-root", rsa: true}, {kind: "timestamp+1", rsa: true}},
 		{{kind: "ok"}, {kind: "repeat-previous"}},
+		{{kind: "ok"}, {kind: "version-1"}, {kind: "ok", ext: 1}},
+		{{kind: "version-255"}},
 		{{kind: "ok"}, {kind: "ok", ext: 1}, {kind: "repeat-first"}},
 		{{kind: "ok"}, {kind: "ok", ext: 1}, {kind: "repeat-previous"}, {kind: "ok", ext: 2}, {kind: "repeat-first"}},
 	}
